@@ -640,10 +640,11 @@ class XsdElement(XsdComponent, ParticleMixin,
             else:
                 context.identities[identity] = identity.get_counter(obj)
 
-        if not context.level:
-            # Need to set converter context with the right object (the resource can be lazy)
-            context.converter.set_xmlns_context(obj, context.level)
-        elif context.use_location_hints:
+        # Need to set converter context with the right object (the resource can
+        # be lazy or the element can be selected by a path, not by its parent)
+        context.converter.set_xmlns_context(obj, context.level)
+
+        if context.level and context.use_location_hints:
             # Use location hints for dynamic schema load
             self.check_dynamic_context(obj, validation, context)
 
